@@ -78,3 +78,27 @@ Example sites_example :
   nucSites Qops [sA; sB] exM sA = 985 /\ nucSites Qops [sB; sA] exM sA = 985 /\
   nucSites Qops [sA; sB] exM sB = 985 + 12 * 30 * 3 /\ nucSites Qops [sB; sA] exM sB = 985 + 12 * 30 * 3.
 Proof. vm_compute. repeat split; reflexivity. Qed.
+
+(* ---- Part D ---------------------------------------------------------------------------------------- *)
+(* rows are lists of numbers, a step overwrites the row; CR registered after AL.  The code's loop puts each
+   element's steps in that element's row for both element orders; a loop over the dictionary (row index = position
+   of the element in the dictionary) swaps them for the order [CR; AL] *)
+Close Scope Q_scope.
+Definition exSteps : list (nat * list (list nat)) := [(2, [[7; 7]]); (1, [[5; 5]; [6; 6]])]%nat.   (* AL = 2, CR = 1 *)
+Example build_profile_example :
+  buildProfile Nat.eqb (fun s _ => s) [1; 2]%nat exSteps [[0; 0]; [0; 0]]%nat = [[6; 6]; [7; 7]]%nat /\
+  buildProfile Nat.eqb (fun s _ => s) [2; 1]%nat exSteps [[0; 0]; [0; 0]]%nat = [[7; 7]; [6; 6]]%nat.
+Proof. vm_compute. split; reflexivity. Qed.
+Example build_profile_dictorder_refuted :
+  buildProfile_dictorder Nat.eqb (fun s _ => s) [1; 2]%nat exSteps [[0; 0]; [0; 0]]%nat = [[7; 7]; [6; 6]]%nat.
+Proof. vm_compute. reflexivity. Qed.
+
+(* particleGibbs without a phase is the FIRST phase's: phases (name, bounds, gamma), gibbs = gamma * bounds *)
+Example particle_gibbs_default_is_first_phase :
+  let ps := [(10, 3, 2); (11, 5, 7)]%nat in
+  let gname := fun q : nat * nat * nat => fst (fst q) in
+  let gb := fun q : nat * nat * nat => snd (fst q) in
+  let gibbs := fun (q : nat * nat * nat) r => (snd q * r)%nat in
+  particleGibbs gname gb gibbs ps (0, 0, 0)%nat None (Some 11%nat) = 35%nat /\
+  particleGibbs gname gb gibbs ps (0, 0, 0)%nat (Some 5%nat) None = 10%nat.
+Proof. vm_compute. split; reflexivity. Qed.
